@@ -51,21 +51,48 @@ func runC02SchemaSweep(c *Ctx) {
 			if !c.thorough && !odd && (ti+int(c.seed))%3 != 0 {
 				continue
 			}
+			// a message in which every message-valued element is present (one fresh child each), so that a step that
+			// looks at a neighbouring field (min / minValue ...) returns the wrong child
 			m := mt.New()
-			child := m.NewField(fd)
-			if fd.IsList() {
-				child.List().Append(protoreflect.ValueOfMessage(child.List().NewElement().Message()))
-				m.Set(fd, child)
-			} else {
-				m.Set(fd, child)
+			var own protoreflect.Message
+			for j := 0; j < fields.Len(); j++ {
+				f2 := fields.Get(j)
+				if f2.Kind() != protoreflect.MessageKind || f2.IsMap() || f2.ContainingOneof() != nil {
+					continue
+				}
+				ch := m.NewField(f2)
+				var cm protoreflect.Message
+				if f2.IsList() {
+					cm = ch.List().NewElement().Message()
+					ch.List().Append(protoreflect.ValueOfMessage(cm))
+				} else {
+					cm = ch.Message()
+				}
+				m.Set(f2, ch)
+				if j == i {
+					own = cm
+				}
 			}
 			msg := m.Interface()
 			coll := system.Collection{msg}
 			var err error
+			var out system.Collection
 			_, pan, pmsg := safeErr(func() error {
-				_, err = (&expr.FieldExpression{FieldName: name}).Evaluate(expr.InitializeContext(coll), coll)
+				out, err = (&expr.FieldExpression{FieldName: name}).Evaluate(expr.InitializeContext(coll), coll)
 				return nil
 			})
+			if !pan && err == nil && own != nil {
+				cd := own.Descriptor()
+				wrapper := cd.Name() == "ContainedResource" || cd.FullName() == "google.protobuf.Any" || (cd.Oneofs().Len() > 0 && cd.Fields().Len() == cd.Oneofs().Get(0).Fields().Len())
+				if !wrapper {
+					okOwn := len(out) == 1
+					if okOwn {
+						pm, isMsg := out[0].(proto.Message)
+						okOwn = isMsg && pm.ProtoReflect() == own
+					}
+					c.Law(okOwn, "C02/wrong-element", "a step yields exactly the elements of that name", string(d.FullName())+" . "+name+" (every element of the message present)", fmt.Sprintf("%d items: %v", len(out), out))
+				}
+			}
 			n++
 			in := string(d.FullName()) + " . " + name
 			c.Law(!pan, "C02/panic", "navigation never crashes", in, pmsg)
@@ -93,7 +120,6 @@ func runC02SchemaSweep(c *Ctx) {
 	c.Observe("schema sweep: message-valued elements stepped into", true)
 	c.Count("schema-sweep-steps")
 	_ = n
-	_ = proto.Equal
 }
 
 // keywords of the grammar that are also identifiers (identifier: IDENTIFIER | DELIMITEDIDENTIFIER | 'as' | 'contains' | 'in' | 'is')
